@@ -25,7 +25,7 @@ RULE = (
     "non-roots; non-trivial = tree with >= 3 nodes; distinct = distinct (tree fingerprint, predicate sets / xpath text)"
 )
 ASSUMPTIONS = ["predicates are pure functions of the offered node"]
-MUST_SEE = ["xpath_after_class_redefinition", "skip_self_with_prune", "start_pruned", "prune_not_filter_with_desc", "list_fields", "index_ge_10_match", "xpath_nonempty", "malformed_rejected", "calculate_xpath_nodes", "gather_calls", "two_anywhere_left_steps", "recalculated_after_change"]
+MUST_SEE = ["abandoned_traversals", "xpath_after_class_redefinition", "skip_self_with_prune", "start_pruned", "prune_not_filter_with_desc", "list_fields", "index_ge_10_match", "xpath_nonempty", "malformed_rejected", "calculate_xpath_nodes", "gather_calls", "two_anywhere_left_steps", "recalculated_after_change"]
 CONFIG = {
     "quick": {"shards": 16, "small_trees": 200, "exh_n": 4, "large_trees": 60, "xpaths": 40, "watchdog_s": 600},
     "thorough": {"shards": 32, "small_trees": 300, "exh_n": 6, "large_trees": 150, "xpaths": 100, "watchdog_s": 3400},
@@ -194,6 +194,30 @@ def run_shard(ctx):
                 if got != exp:
                     bad("legacy-gather", "legacy gather differs from the filtered pre-order stream", classes=cns, exact=exact, extra=use_extra, prune=sorted(idx_of[i] for i in pr) if use_prune else None, filter=sorted(idx_of[i] for i in fl) if use_extra else None, skip_self=skip_self, got=[idx_of.get(i, "?") for i in got], expected=[idx_of[i] for i in exp])
 
+        # ---------------------------------------------------------------- abandoned, nested and interleaved traversals
+        if n >= 3:
+            nothing = lambda p: False  # noqa: E731
+            pre0, post0 = ref("dfs", nothing, False)
+            lvl0, _ = ref("bfs", nothing, False)
+            exp_pre, exp_post, exp_lvl = ([id(obj[id(p)]) for p in x] for x in (pre0, post0, lvl0))
+            it1, it2, it3 = root.dfs(), root.gather(type(nodes[-1])), root.bfs()
+            next(it1, None), next(it1, None), next(it2, None), next(it3, None)  # left half-consumed
+            ctx.count("abandoned_traversals")
+            outer = []
+            for a in root.dfs():
+                outer.append(id(a))
+                if len(outer) <= 3:
+                    list(itertools.islice(a.dfs(bottom_up=True), 2))  # a traversal started (and abandoned) inside another one's loop
+                    list(a.bfs())
+            z = list(zip(root.dfs(), root.dfs(bottom_up=True), root.bfs()))
+            ctx.evaluations += 3
+            if outer != exp_pre:
+                bad("legacy-dfs-stream", "legacy dfs with other traversals started inside its loop yielded a different stream", got=[idx_of.get(i, "?") for i in outer], expected=[idx_of[i] for i in exp_pre], kind="nested")
+            elif [id(x[0]) for x in z] != exp_pre or [id(x[1]) for x in z] != exp_post or [id(x[2]) for x in z] != exp_lvl:
+                bad("legacy-dfs-stream", "interleaved legacy traversals (zip of dfs, bottom-up dfs, bfs) yielded different streams than alone", kind="zipped")
+            elif [id(x) for x in root.dfs()] != exp_pre or [id(x) for x in root.dfs(bottom_up=True)] != exp_post or [id(x) for x in root.bfs()] != exp_lvl:
+                bad("legacy-dfs-stream", "a legacy traversal after abandoned ones yielded a different stream", kind="after-abandoned")
+            del it1, it2, it3
         # ---------------------------------------------------------------- legacy xpath
         def cls_choices(p):
             return [c.__name__ for c in type(obj[id(p)]).__mro__ if c.__name__ in classes]
